@@ -16,7 +16,7 @@ Section Gen.
 Variable E : env.
 
 Definition search_timestamps (i : index) (query : query) : sres :=
-  (if (q_op_is query Ceq)
+  (if (q_op_is_dt query Ceq)
     then (opt_bind (q_rhs_stamp query) (fun x =>
       find_res (zfind_eq (ix_ts i) x) (fun match_o =>
       (match match_o with
@@ -24,7 +24,7 @@ Definition search_timestamps (i : index) (query : query) : sres :=
       | Some match_z => (let results := eq_run_from i x match_z in
       (Some results))
       end))))
-    else (if (q_op_is query Cne)
+    else (if (q_op_is_dt query Cne)
     then (opt_bind (q_rhs_stamp query) (fun x =>
       find_res (zfind_eq (ix_ts i) x) (fun match_o =>
       (match match_o with
@@ -32,28 +32,28 @@ Definition search_timestamps (i : index) (query : query) : sres :=
       | Some match_z => (let results := eq_run_from i x match_z in
       (Some (set_difference (set_of (ix_pos i)) results)))
       end))))
-    else (if (q_op_is query Clt)
+    else (if (q_op_is_dt query Clt)
     then (opt_bind (q_rhs_stamp query) (fun x =>
       find_res (zfind_lt (ix_ts i) x) (fun match_o =>
       (match match_o with
       | None => (Some (@nil nat))
       | Some match_z => (Some (set_of (slice_to (ix_pos i) (match_z + 1)%Z)))
       end))))
-    else (if (q_op_is query Cle)
+    else (if (q_op_is_dt query Cle)
     then (opt_bind (q_rhs_stamp query) (fun x =>
       find_res (zfind_le (ix_ts i) x) (fun match_o =>
       (match match_o with
       | None => (Some (@nil nat))
       | Some match_z => (Some (set_of (slice_to (ix_pos i) (match_z + 1)%Z)))
       end))))
-    else (if (q_op_is query Cgt)
+    else (if (q_op_is_dt query Cgt)
     then (opt_bind (q_rhs_stamp query) (fun x =>
       find_res (zfind_gt (ix_ts i) x) (fun match_o =>
       (match match_o with
       | None => (Some (@nil nat))
       | Some match_z => (Some (set_of (slice_from (ix_pos i) match_z)))
       end))))
-    else (if (q_op_is query Cge)
+    else (if (q_op_is_dt query Cge)
     then (opt_bind (q_rhs_stamp query) (fun x =>
       find_res (zfind_ge (ix_ts i) x) (fun match_o =>
       (match match_o with
